@@ -9,7 +9,9 @@ RULE = ('one case = one public call (get_kmers / get_minimizers / match_string /
         'per row / KmerEncoding.encode+to_string) on a ragged list of sequences; every tuple of row lengths of the small '
         'grid x every window length with total letters >= window (exhaustive over lengths, letters random), plus rows of '
         'length w-1, w, w+1, empty rows, a short last row, windows up to 31 and flat data crossing the 32-letter '
-        'register border of the bit-packed path; non-trivial = at least two rows and at least one row holds a window')
+        'register border of the bit-packed path; the collection is a freshly built array or a non-contiguous VIEW of a larger '
+        'one (rows sliced off, boolean mask, reordering, first column trimmed), a single sequence as a 1-d array, or '
+        'equal-length sequences as a 2-d array; non-trivial = at least two rows and at least one row holds a window')
 EXHAUSTIVE = {'quick': False, 'thorough': False}
 TIE = ('correspondence (Model.C13 rolling / get_kmers incl. the uint64 register model / get_minimizers / match_string / '
        'get_motif_scores / count_kmers / encode / to_string evaluated in Coq on the same rows)')
@@ -34,11 +36,15 @@ OPS = ['kmers', 'minimizers', 'match', 'motif', 'count', 'count_rows', 'codec']
 KMAX = {2: 31, 3: 31, 4: 31, 5: 27, 21: 14}          # |A|^k < 2^63
 
 
-def _mk(rng, op, enc, alpha, lens, w, k=None, ascii_in=False, low_entropy=False):
+VIEWS = ['tail', 'mask', 'perm', 'cols', 'head']
+
+
+def _mk(rng, op, enc, alpha, lens, w, k=None, ascii_in=False, low_entropy=False, view=None, dense=False):
     n = len(alpha)
     letters = alpha[:2] if low_entropy else alpha
     rows = [''.join(rng.choice(letters) for _ in range(L)) for L in lens]
-    case = dict(op=OPS.index(op), enc=enc, alpha=alpha, ascii=bool(ascii_in), rows=rows, w=w, k=w, pat='', cols=[])
+    case = dict(op=OPS.index(op), enc=enc, alpha=alpha, ascii=bool(ascii_in), rows=rows, w=w, k=w, pat='', cols=[],
+                parent=None, view=None, kind='ragged')
     flat = ''.join(rows)
     if op == 'minimizers':
         case['k'] = k if k else rng.randint(1, w)
@@ -51,6 +57,40 @@ def _mk(rng, op, enc, alpha, lens, w, k=None, ascii_in=False, low_entropy=False)
             case['pat'] = ''.join(rng.choice(letters) for _ in range(w))
     if op == 'motif':
         case['cols'] = [[rng.randint(-40, 40) for _ in range(n)] for _ in range(w)]
+    if dense and op != 'codec' and len(rows) == 1:
+        case['kind'] = 'single'            # one sequence handed over as a 1-d EncodedArray, not a ragged array
+        return case
+    if dense and op in ('kmers', 'minimizers', 'match', 'count', 'count_rows') and not ascii_in \
+            and len(rows) >= 2 and len(set(lens)) == 1 and lens[0] >= 1:
+        case['kind'] = 'matrix'            # equal-length sequences handed over as a 2-d EncodedArray
+        return case
+    if view and op != 'codec':
+        # the collection handed to the library is a non-contiguous VIEW of a larger one (a prior slicing /
+        # filtering / reordering / column-trimming step); `rows` stays the content of that view
+        junk = lambda: ''.join(rng.choice(letters) for _ in range(rng.choice([1, 2, 3, w, w + 1])))
+        if view == 'tail':
+            case['parent'], case['view'] = [junk()] + rows, ['tail']
+        elif view == 'head':
+            case['parent'], case['view'] = rows + [junk()], ['head']
+        elif view == 'mask':
+            parent, mask = [], []
+            for r in rows:
+                while rng.random() < 0.5:
+                    parent.append(junk()); mask.append(False)
+                parent.append(r); mask.append(True)
+            if all(mask):
+                parent.insert(0, junk()); mask.insert(0, False)
+            case['parent'], case['view'] = parent, ['mask', mask]
+        elif view == 'perm':
+            extra = [junk() for _ in range(rng.randint(0, 2))]
+            order = list(range(len(rows) + len(extra)))
+            rng.shuffle(order)                           # parent position of each of rows + extra
+            parent = [None] * len(order)
+            for item, pos in zip(rows + extra, order):
+                parent[pos] = item
+            case['parent'], case['view'] = parent, ['perm', order[:len(rows)]]
+        elif view == 'cols':
+            case['parent'], case['view'] = [rng.choice(letters) + r for r in rows], ['cols']
     return case
 
 
@@ -65,7 +105,6 @@ def _ok(op, n, w, total):
 def generate(tier, seed):
     rng = random.Random(seed * 7919 + 13)
     cases = []
-    ctr = 0
     # ---- small grid: every tuple of row lengths x every window, every operation
     if tier == 'quick':
         grids = [(1, 6), (2, 4), (3, 3)]
@@ -73,20 +112,23 @@ def generate(tier, seed):
     else:
         grids = [(1, 8), (2, 6), (3, 5), (4, 3)]
         wmax = 7
+    cnt = {op: 0 for op in OPS}          # one counter per operation: alphabet / input form / letters cycle independently
     for nrows, maxlen in grids:
         for lens in itertools.product(range(maxlen + 1), repeat=nrows):
             for w in range(1, wmax + 1):
                 if sum(lens) < w:
                     continue
                 for op in OPS:
-                    ctr += 1
-                    enc, alpha = ALPHS[ctr % len(ALPHS)]
+                    cnt[op] += 1
+                    c = cnt[op]
+                    enc, alpha = ALPHS[c % len(ALPHS)]
                     if op in ('count', 'count_rows') and len(alpha) ** w > 300:
                         enc, alpha = ('dna', 'ACGT') if w <= 4 else ('custom', 'AC')
                     if not _ok(op, len(alpha), w, sum(lens)):
                         continue
-                    ascii_in = (enc == 'dna' and op in ('kmers', 'match', 'motif') and ctr % 3 == 0)
-                    cases.append(_mk(rng, op, enc, alpha, lens, w, ascii_in=ascii_in, low_entropy=(ctr % 4 == 0)))
+                    ascii_in = (enc == 'dna' and op in ('kmers', 'match', 'motif') and (c // 7) % 2 == 0)
+                    cases.append(_mk(rng, op, enc, alpha, lens, w, ascii_in=ascii_in, low_entropy=(c % 5 == 0),
+                                     view=(VIEWS[(c // 3) % len(VIEWS)] if c % 3 == 1 else None), dense=(c % 2 == 0)))
     # ---- boundary rows around the window, larger windows (up to 31), register borders of the packed path
     n_big = 700 if tier == 'quick' else 6000
     for i in range(n_big):
@@ -105,13 +147,16 @@ def generate(tier, seed):
         lens = [max(0, rng.choice(pool)) for _ in range(nrows)]
         if i % 3 == 0:                       # a short last row
             lens[-1] = rng.choice([0, 1, max(0, w - 2), max(0, w - 1)])
+        j = i // len(OPS)
+        if j % 5 == 2 and nrows >= 2:         # equal-length reads (also handed over as a 2-d array)
+            lens = [lens[0]] * nrows
         if sum(lens) < w:
-            lens[0] += w
+            lens = [lens[0] + w] * nrows if len(set(lens)) == 1 else [lens[0] + w] + lens[1:]
         k = None
         if op == 'minimizers':
             k = min(w, rng.choice([1, 2, w, max(1, w - 1), rng.randint(1, w)]))
-        cases.append(_mk(rng, op, enc, alpha, lens, w, k=k, ascii_in=(enc == 'dna' and op in ('kmers', 'match', 'motif') and i % 4 == 1),
-                         low_entropy=(i % 6 == 0)))
+        cases.append(_mk(rng, op, enc, alpha, lens, w, k=k, ascii_in=(enc == 'dna' and op in ('kmers', 'match', 'motif') and j % 3 == 1),
+                         low_entropy=(i % 6 == 0), view=(VIEWS[(i // 2) % len(VIEWS)] if i % 2 == 1 else None), dense=(j % 5 == 2 or i % 4 == 0)))
     return cases
 
 
@@ -126,14 +171,15 @@ def _encoding(case):
     return AlphabetEncoding(case['alpha'])
 
 
-def _ragged(x, nrows):
-    """A ragged (or 2-d) result as a list of lists of Python ints; anything else is not an answer."""
+def _ragged(x, nrows, kind='ragged'):
+    """A ragged / 2-d / 1-d result as a list of rows.  A result of the wrong form (1-d for several sequences,
+    wrong number of rows) is passed on as it is: it then fails the comparison inside Coq and is reported with its input."""
+    import numpy as np
     if hasattr(x, 'raw'):
         x = x.raw()
-    out = [[v for v in row] for row in x]
-    if len(out) != nrows:
-        raise RuntimeError('result has %d rows for %d sequences' % (len(out), nrows))
-    return out
+    if isinstance(x, np.ndarray) and x.ndim == 1:
+        return [[v for v in x]]
+    return [[v for v in row] for row in x]
 
 
 def _num(v):
@@ -151,32 +197,61 @@ def observe(case):
     import bionumpy as bnp
     from bionumpy.encodings.kmer_encodings import KmerEncoding
     from bionumpy.sequence.position_weight_matrix import PWM
+    from bionumpy.encoded_array import EncodedArray
     enc = _encoding(case)
     alpha = case['alpha']
     assert ''.join(enc.get_alphabet()).upper() == alpha.upper(), (enc.get_alphabet(), alpha)
     rows, w, op = case['rows'], case['w'], OPS[case['op']]
-    seqs = bnp.as_encoded_array(rows) if case['ascii'] else bnp.as_encoded_array(rows, enc)
+    kind = case.get('kind', 'ragged')
+
+    def make():
+        if kind == 'single':
+            return bnp.as_encoded_array(rows[0]) if case['ascii'] else bnp.as_encoded_array(rows[0], enc)
+        if kind == 'matrix':
+            rag = bnp.as_encoded_array(rows, enc)
+            return EncodedArray(rag.raw().to_numpy_array(), enc)
+        if not case.get('view'):
+            return bnp.as_encoded_array(rows) if case['ascii'] else bnp.as_encoded_array(rows, enc)
+        parent = bnp.as_encoded_array(case['parent']) if case['ascii'] else bnp.as_encoded_array(case['parent'], enc)
+        vk = case['view'][0]
+        if vk == 'tail':
+            return parent[1:]
+        if vk == 'head':
+            return parent[:-1]
+        if vk == 'mask':
+            return parent[np.array(case['view'][1], dtype=bool)]
+        if vk == 'perm':
+            return parent[list(case['view'][1])]
+        if vk == 'cols':
+            return parent[:, 1:]
+        raise RuntimeError('unknown view')
+    if case.get('view'):
+        # the view really holds `rows` (checked on its own object: reading a view may flatten it in place)
+        got = [r.to_string() for r in make()]
+        if got != rows:
+            raise RuntimeError('view content %r != rows %r' % (got, rows))
+    seqs = make()
     nrows = len(rows)
     try:
         if op == 'kmers':
             r = bnp.get_kmers(seqs, w)
-            return dict(out=[[_num(v) for v in row] for row in _ragged(r, nrows)])
+            # the returned k-mers rendered back to text through their own encoding (str of each element)
+            texts = [str(x) for x in r] if kind == 'single' else [str(x) for row in r for x in row]
+            return dict(out=[[_num(v) for v in row] for row in _ragged(r, nrows, kind)], labels=texts)
         if op == 'minimizers':
             r = bnp.get_minimizers(seqs, case['k'], w)
-            return dict(out=[[_num(v) for v in row] for row in _ragged(r, nrows)])
+            return dict(out=[[_num(v) for v in row] for row in _ragged(r, nrows, kind)])
         if op == 'match':
             r = bnp.match_string(seqs, case['pat'])
-            return dict(out=[[_num(v) for v in row] for row in _ragged(r, nrows)])
+            return dict(out=[[_num(v) for v in row] for row in _ragged(r, nrows, kind)])
         if op == 'motif':
             m = np.array(case['cols'], dtype=float).T.copy()          # alphabet x positions
             r = bnp.get_motif_scores(seqs, PWM(m, alpha))
-            return dict(out=[[_num(v) for v in row] for row in _ragged(r, nrows)])
+            return dict(out=[[_num(v) for v in row] for row in _ragged(r, nrows, kind)])
         if op in ('count', 'count_rows'):
             c = bnp.sequence.count_kmers(seqs, w) if op == 'count' else bnp.sequence.count_kmers(seqs, w, axis=-1)
             cnt = np.asarray(c.counts)
-            out = [[_num(v) for v in cnt]] if op == 'count' else [[_num(v) for v in row] for row in cnt]
-            if op == 'count_rows' and len(out) != nrows:
-                raise RuntimeError('count rows')
+            out = [[_num(v) for v in cnt]] if (op == 'count' or kind == 'single') else [[_num(v) for v in row] for row in cnt]
             return dict(out=out, labels=[str(s) for s in c.alphabet])
         if op == 'codec':
             ke = KmerEncoding(enc, w)
@@ -186,12 +261,16 @@ def observe(case):
                 if not texts:
                     continue
                 many = [int(v) for v in np.asarray(ke.encode(texts).raw()).ravel()]
-                for t, h2 in zip(texts, many):
-                    h = int(ke.encode(t).raw())
+                many2 = [int(v) for v in np.asarray(ke.encode(bnp.as_encoded_array(texts)).raw()).ravel()]
+                single = [int(ke.encode(t).raw()) for t in texts]
+                joined = ke.to_string(np.array(single))          # array form: comma separated
+                for t, h, h2, h3 in zip(texts, single, many, many2):
                     s = ke.to_string(h)
-                    if h2 != h:
-                        h = -1                     # the two encode routes must agree
+                    if h2 != h or h3 != h:
+                        h = -1                     # the three encode routes (str, list, ragged array) must agree
                     out.append([h] + [ord(ch) for ch in s])
+                if joined != ','.join(ke.to_string(h) for h in single):
+                    out.append([-2])               # array rendering must be the join of the single renderings
             return dict(out=out)
     except (ValueError, IndexError, AssertionError, TypeError, OverflowError, KeyError, ZeroDivisionError) as e:
         return dict(error=type(e).__name__, msg=str(e)[:120])
@@ -220,12 +299,19 @@ def nontrivial(case, o):
 
 def describe(case, o):
     d = dict(op=OPS[case['op']], alphabet=case['alpha'], ascii_input=case['ascii'], rows=case['rows'], window=case['w'])
+    if case.get('kind', 'ragged') != 'ragged':
+        d['input_kind'] = case['kind']
+    if case.get('view'):
+        d['input_is_view'] = dict(parent=case['parent'], view=case['view'])
     if OPS[case['op']] == 'minimizers':
         d['k'] = case['k']
     if case['pat']:
         d['pattern'] = case['pat']
     if case['cols']:
         d['pwm_columns'] = case['cols']
+    if 'out' not in o:
+        d['observed'] = o.get('error') or o.get('__harness_error__')
+        return d
     d['observed'] = o.get('error') or (o['out'] if sum(map(len, o['out'])) < 60 else '%d rows, %d values' % (len(o['out']), sum(map(len, o['out']))))
     return d
 
@@ -240,12 +326,24 @@ def explain(case, o):
             'count_rows': 'bnp.sequence.count_kmers(seqs, %d, axis=-1)' % case['w'],
             'codec': 'KmerEncoding(enc, %d).encode / .to_string on every window' % case['w']}[op]
     enc = {'dna': 'bnp.DNAEncoding', 'amino': 'bnp.encodings.AminoAcidEncoding'}.get(case['enc'], 'AlphabetEncoding(%r)' % case['alpha'])
+    if case.get('kind') == 'single':
+        return 'seqs = bnp.as_encoded_array(%r%s)  # ONE sequence, 1-d; %s' % (case['rows'][0], '' if case['ascii'] else ', ' + enc, call)
+    if case.get('kind') == 'matrix':
+        return 'r = bnp.as_encoded_array(%r, %s); seqs = EncodedArray(r.raw().to_numpy_array(), r.encoding)  # 2-d; %s' % (case['rows'], enc, call)
+    if case.get('view'):
+        v = {'tail': 'parent[1:]', 'head': 'parent[:-1]', 'cols': 'parent[:, 1:]'}.get(case['view'][0])
+        if case['view'][0] == 'mask':
+            v = 'parent[np.array(%r)]' % (case['view'][1],)
+        if case['view'][0] == 'perm':
+            v = 'parent[%r]' % (case['view'][1],)
+        return 'parent = bnp.as_encoded_array(%r%s); seqs = %s  # holds %r; %s' % (
+            case['parent'], '' if case['ascii'] else ', ' + enc, v, case['rows'], call)
     return 'seqs = bnp.as_encoded_array(%r%s); %s' % (case['rows'], '' if case['ascii'] else ', ' + enc, call)
 
 
 def distribution(cases, obs):
     d = dict(ops={}, alphabet_size={}, window={}, rows={}, with_empty_row=0, row_len_w_minus_1=0, row_len_w=0, row_len_w_plus_1=0,
-             short_last_row=0, flat_over_32=0, ascii_input=0, errors={})
+             short_last_row=0, flat_over_32=0, ascii_input=0, input_view={}, input_kind={}, errors={})
     for c, o in zip(cases, obs):
         w = c['w']
         for key, v in (('ops', OPS[c['op']]), ('alphabet_size', len(c['alpha'])), ('window', w), ('rows', len(c['rows']))):
@@ -258,6 +356,10 @@ def distribution(cases, obs):
         d['short_last_row'] += len(L) > 1 and L[-1] < w - 1
         d['flat_over_32'] += sum(L) > 32
         d['ascii_input'] += c['ascii']
+        kd = c.get('kind', 'ragged')
+        d['input_kind'][kd] = d['input_kind'].get(kd, 0) + 1
+        if c.get('view'):
+            d['input_view'][c['view'][0]] = d['input_view'].get(c['view'][0], 0) + 1
         if isinstance(o, dict) and 'error' in o:
             d['errors'][o['error']] = d['errors'].get(o['error'], 0) + 1
     return d
